@@ -829,6 +829,13 @@ fn c05_scenario_k(btree: bool, split_pipeline: bool, big: bool, two_cols: bool, 
 /// crash leaves): replay consumed record id 1 while the commit id counter starts again at 0, so that commit ids and
 /// record ids differ for the rest of the handle's life (reindex records cause the same drift).
 fn c05_scenario_d(btree: bool, split_pipeline: bool, big: bool, two_cols: bool, reuse: bool, drift: bool) -> impl Fn() + Sync + Send + 'static {
+	c05_scenario_r(btree, split_pipeline, big, two_cols, reuse, drift, false)
+}
+
+/// `recycle`: three transactions instead of two, and a pipeline order in which the first log file is enacted, cleaned
+/// and taken from the pool again for the third record while the second file is still waiting to be enacted (a lower
+/// file id then holds the newer record).
+fn c05_scenario_r(btree: bool, split_pipeline: bool, big: bool, two_cols: bool, reuse: bool, drift: bool, recycle: bool) -> impl Fn() + Sync + Send + 'static {
 	move || {
 		let c2: u8 = if two_cols { 1 } else { 0 };
 		ITER.fetch_add(1, Ordering::SeqCst);
@@ -842,11 +849,15 @@ fn c05_scenario_d(btree: bool, split_pipeline: bool, big: bool, two_cols: bool, 
 			let n = if big { 40_000 } else { 10 };
 			vec![(Some(val(n, 1)), None), (None, None), (None, Some(val(n, 9)))]
 		} else {
-			vec![
+			let mut v = vec![
 				(Some(val(10, 1)), Some(val(20, 2))),
 				(Some(val(60, 3)), Some(val(b2, 4))), // other size tiers (multipart when big)
 				(Some(val(10, 5)), None),
-			]
+			];
+			if recycle {
+				v.push((Some(val(60, 7)), Some(val(20, 8))));
+			}
+			v
 		});
 		let v0: Vec<(u8, Vec<u8>, Option<Vec<u8>>)> = vec![(0u8, key(1), versions[0].0.clone()), (c2, key(2), versions[0].1.clone())].into_iter().filter(|(_, _, v)| v.is_some()).collect();
 		let db = if drift {
@@ -879,7 +890,7 @@ fn c05_scenario_d(btree: bool, split_pipeline: bool, big: bool, two_cols: bool, 
 		let w = {
 			let (db, versions, committed) = (db.clone(), versions.clone(), committed.clone());
 			loom::thread::spawn(move || {
-				for v in 1..=2usize {
+				for v in 1..versions.len() {
 					db.commit(vec![(0u8, key(1), versions[v].0.clone()), (c2, key(2), versions[v].1.clone())]).unwrap();
 					committed.store(v, loom::sync::atomic::Ordering::SeqCst);
 				}
@@ -897,6 +908,22 @@ fn c05_scenario_d(btree: bool, split_pipeline: bool, big: bool, two_cols: bool, 
 			pipes.push(loom::thread::spawn(move || {
 				d2.enact_logs().unwrap();
 				d2.clean_logs().unwrap();
+			}));
+		} else if recycle {
+			let d1 = db.clone();
+			pipes.push(loom::thread::spawn(move || {
+				d1.process_commits().unwrap();
+				d1.flush_logs().unwrap();
+				d1.process_commits().unwrap();
+				d1.flush_logs().unwrap();
+				d1.enact_logs().unwrap();
+				d1.clean_logs().unwrap();
+				// the third record goes into the recycled first file
+				d1.process_commits().unwrap();
+				d1.flush_logs().unwrap();
+				d1.enact_logs().unwrap();
+				d1.enact_logs().unwrap();
+				d1.clean_logs().unwrap();
 			}));
 		} else {
 			let d1 = db.clone();
@@ -1450,6 +1477,8 @@ fn run_child(prop: &str, tier: &str, idx: usize) -> Outcome {
 		("C05", 12) if !quick => explore("real-workers/log+flush+commit", 2, wall, c05_real_workers(0b0111)),
 		("C05", 16) => explore("hash/record-ids-ahead-of-commit-ids", 2, wall, c05_scenario_d(false, false, false, false, false, true)),
 		("C05", 17) if !quick => explore("btree/record-ids-ahead-of-commit-ids+split-pipeline", 2, wall, c05_scenario_d(true, true, false, false, false, true)),
+		("C05", 18) => explore("hash/three-commits-recycled-log-file", 1, wall, c05_scenario_r(false, false, false, false, false, false, true)),
+		("C05", 19) if !quick => explore("hash/three-commits-recycled-log-file", 2, wall, c05_scenario_r(false, false, false, false, false, false, true)),
 		("C05", 13) => explore("hash/slot-reuse-by-another-key", 2, wall, c05_scenario_k(false, false, false, false, true)),
 		("C05", 14) => explore("hash/multipart-chain-reuse-by-another-key", 1, wall, c05_scenario_k(false, false, true, false, true)),
 		("C05", 15) if !quick => explore("hash/multipart-chain-reuse-by-another-key", 2, wall, c05_scenario_k(false, true, true, false, true)),
